@@ -506,18 +506,31 @@ def solve_sat(
                 return Result(sol, len(sol), decisions, propagations, solutions=tuple(all_solutions))
 
             blocking = [(-v if vals[v] == 1 else v) for v in range(1, n_vars + 1) if vals[v] != UNDEF]
-            clause_idx = len(clauses) + len(learned)
-            learned.append(blocking)
-            lbd_scores.append(n_vars)
-
-            if len(blocking) >= 2:
-                add_watch(blocking[0], clause_idx)
-                add_watch(blocking[1], clause_idx)
-            elif len(blocking) == 1:
-                add_watch(blocking[0], clause_idx)
-
             unassign_to(0)
             dec_level = 0
+
+            # Watch literals that are free after the backtrack; those still assigned at level 0 are false for good
+            blocking.sort(key=lambda lit: vals[lit_var(lit)] != UNDEF)
+            n_free = sum(1 for lit in blocking if vals[lit_var(lit)] == UNDEF)
+            if n_free == 0:
+                # Every other model is excluded by level-0 facts: enumeration is complete
+                return Result(
+                    all_solutions[0], len(all_solutions[0]), decisions, propagations, solutions=tuple(all_solutions)
+                )
+
+            clause_idx = len(clauses) + len(learned)
+            learned.append(blocking)
+            lbd_scores.append(0)  # never dropped by reduce_db
+
+            if len(blocking) == 2:
+                big.add(blocking[0], blocking[1], clause_idx)
+            elif len(blocking) > 2:
+                add_watch(blocking[0], clause_idx)
+                add_watch(blocking[1], clause_idx)
+
+            if n_free == 1:
+                assign(lit_var(blocking[0]), blocking[0] > 0, clause_idx)
+
             conflict = propagate()
             continue
 
